@@ -604,3 +604,21 @@ def fam_json(tier, seed):
              long_inputs=[cps(s) for s in docs])
     r = peg.pest_read([g], "json_f")[0]
     return [g] if r.get("valid") else []
+
+
+def fam_odd(tier):
+    """Unusual but valid constructs: escapes in strings and ranges, empty strings, non-ASCII insensitive strings, arities of 20,
+    deep nesting, names with underscores and digits: every one must compile and behave as pest does."""
+    lines = [r's1 = { "\"" ~ "\\" ~ "\u{e9}" }', r's2 = { ^"é" ~ ^"ß" ~ ^"K" }', r"s3 = { '\''..'\\' }", r's4 = { "" ~ "a" ~ "" }',
+             r's5 = { "\t" ~ "\r\n" ~ "\x41" }',
+             "c20 = { " + " | ".join('"%s"' % (chr(97 + i % 3) * (1 + i % 4)) for i in range(20)) + " }",
+             "q20 = { " + " ~ ".join("'a'..'c'" for i in range(20)) + " }",
+             '_under = { "a" }', 'r_9 = ${ _under ~ _under? }',
+             'nest = { ((((("a")?) ~ "b")* ~ ("c" | ("a" ~ ("b" | ("c" ~ "a")?)))?)) }',
+             r"u1 = { '\u{e0}'..'\u{ff}' ~ '\u{1F600}'..'\u{1F64F}' }",
+             r'WHITESPACE = _{ "\u{a0}" | " " }']
+    g = dict(id="odd0", text="\n".join(lines), alphabet=[97, 98, 99, 34, 92, 233, 32], maxlen=3 if tier == "quick" else 4,
+             inputs=[cps(s) for s in ['"\\é', 'éßk', 'ÉSSK', 'éßK', "'", "\\", "(", "a", "\t\r\nA", "abcabcabcabcabcabcabc",
+                                      "a b c a b c a b c a b c a b c a b c a b", "a a", "aa", "é😀", "ÿ😃", "tt", "ss", "ababcab", "bbc", "cacab",
+                                      "a\u00a0b", "\" \\ é"]])
+    return [g]
